@@ -31,7 +31,7 @@ def shards(tier):
 
 
 def required_classes(tier):
-    return ["threads:sign+verify", "soak:valid-public-keys", "honest:custom-suite", "honest:basic", "honest:aug", "honest:pop", "pop", "reject:range", "reject:type", "keygen", "keygen:retry(W5)", "key:boundary", "key:bitlen", "key:random",
+    return ["key:pk-coordinate-band", "threads:sign+verify", "soak:valid-public-keys", "honest:custom-suite", "honest:basic", "honest:aug", "honest:pop", "pop", "reject:range", "reject:type", "keygen", "keygen:retry(W5)", "key:boundary", "key:bitlen", "key:random",
             "msg:empty", "msg:block-boundary", "msg:pk"]
 
 
@@ -134,6 +134,26 @@ def run(rec):
         soak_then_reprobe(rec, "valid-public-keys", [lambda: honest(rec, suiteA, suites[suiteA], skA, mA), lambda: pop(rec, suites["pop"], skA)], valid_keys(), nsoak)
     else:
         rec.case("soak:valid-public-keys", None, nontrivial=False)
+    # ---- keys whose PUBLIC key has an x-coordinate at the edge of the field (leading octet equal to the modulus's 0x1a, or 0x00):
+    # found by walking sk -> sk + 1 in the model, see c02.coordinate_band_cases
+    if rec.shard % 4 == 1 or not quick:
+        q_ = params.BLS_P
+        E1m, G1m = params.BLS_E1, params.bls_generators()[0]
+        for j in range(2 if quick else 8):
+            sk = rng.randrange(1, R // 2)
+            Pt = E1m.mul(G1m, sk)
+            for _ in range(60000):
+                if ((Pt[0][0] >> 376) == (q_ >> 376)) if j % 2 == 0 else ((Pt[0][0] >> 376) == 0):
+                    break
+                sk += 1
+                Pt = E1m.add(Pt, G1m)
+            else:
+                continue
+            suite = names[(j + rec.shard) % 3]
+            rec.case("key:pk-coordinate-band", None, nontrivial=False)
+            honest(rec, suite, suites[suite], sk, rng.randbytes(rng.choice([0, 32, 65])))
+            pop(rec, suites["pop"], sk)
+    rec.case("key:pk-coordinate-band", None, nontrivial=False)
     # ---- concurrent use
     if rec.shard % 8 == 6 or not quick:
         threads_phase(rec, suites)
